@@ -293,6 +293,8 @@ class Interp:
             return str(self.eval(e['a'], ns)) + str(self.eval(e['b'], ns))
         if k == 'eq':
             return self.eval(e['a'], ns) == self.eval(e['b'], ns)
+        if k == 'gt':
+            return self.eval(e['a'], ns) > self.eval(e['b'], ns)
         raise ValueError(k)
 
     def ref(self, ref, ns):
